@@ -1353,8 +1353,15 @@ def _c05_eval(inputs, cache=None):
     return outcome
 
 
-def _c05_scenarios(tier, rng):
+C05_SAMPLE_SIZES = {
+    'quick': {'meta-combo': 300, 'multi-field': 600},
+    'thorough': {'meta-combo': 15000, 'multi-field': 40000},
+}
+
+
+def _c05_scenarios(tier, rng, sizes=None):
     """Yield (family, inputs).  See the 'rule' text of suite_C05."""
+    sizes = sizes or C05_SAMPLE_SIZES[tier]
     variants = field_variants(tier)
     ids = [None] + list(variants)
 
@@ -1392,7 +1399,7 @@ def _c05_scenarios(tier, rng):
                     for prop, prop_variants in metas.items()
                     if prop != 'db_table' or rng.random() < 0.2)
 
-    for i in range(300 if tier == 'quick' else 6000):
+    for i in range(sizes['meta-combo']):
         yield 'meta-combo', {
             'kind': 'pair',
             'old': make_spec([], random_meta()),
@@ -1423,7 +1430,7 @@ def _c05_scenarios(tier, rng):
 
         return subject
 
-    for i in range(600 if tier == 'quick' else 12000):
+    for i in range(sizes['multi-field']):
         old_f, new_f = random_fields(), random_fields()
 
         if any(o is not None and n is not None and _is_m2m(o) != _is_m2m(n)
@@ -1580,7 +1587,7 @@ def suite_C05(tier='quick', seed=0):
     collector.extra['families'] = families
     collector.extra['distinct_signatures'] = len(seen_sigs)
     return collector.finish(
-        exhaustive=False if tier == 'quick' else False,
+        exhaustive=False,
         rule=C05_RULE + '  (families field-pairs, meta-single, '
         'deleted-models and explicit-defaults are exhaustive over their '
         'stated variant catalogs; meta-combo and multi-field are sampled.)')
@@ -1676,6 +1683,25 @@ _known(
                                                'unique': True}]]})
 
 
+_known(
+    'C06-untracked-field-attrs-dropped', 'mem:eq',
+    {'path': 'every path',
+     'signature': 'a FieldSignature whose field_attrs hold a key that is '
+                  'not in FieldSignature._ATTRIBUTE_DEFAULTS for its type: '
+                  "what AddField(..., help_text=...) stores, and the "
+                  "'related_model' entry ChangeField.simulate() leaves "
+                  'behind (KNOWN C05-related-model-into-attrs)'},
+    "FieldSignature.serialize() writes all field_attrs, but deserialize() "
+    "only reads the attribute names of the defaults table for the field "
+    "type; any other stored attribute silently disappears, so the reloaded "
+    "signature is != the written one (and, for the stray related_model "
+    "entry, has a non-empty diff).",
+    {'kind': 'evolved',
+     'spec': make_spec([]),
+     'mutations': [['AddField', 'M', 'n', {'$cls': 'CharField'},
+                    {'max_length': 5, 'null': True, 'help_text': 'h'}]]})
+
+
 def build_sig_direct(desc):
     """Build a ProjectSignature from a plain-data description."""
     H.setup()
@@ -1743,6 +1769,10 @@ def build_sig_direct(desc):
     return project_sig
 
 
+class _IllFormed(Exception):
+    pass
+
+
 def _c06_signature(inputs, cache=None):
     cache = cache or _cache
     kind = inputs['kind']
@@ -1755,6 +1785,28 @@ def _c06_signature(inputs, cache=None):
         return sig
     if kind == 'direct':
         return build_sig_direct(inputs['sig'])
+    if kind == 'hinted-evolved':
+        from django_evolution.diff import Diff
+        old = cache.sig(inputs['old'])
+        new = cache.sig(inputs['new'])
+        cache.register(inputs['new'])
+        sig = old.clone()
+
+        with warnings.catch_warnings():
+            warnings.simplefilter('ignore')
+            evolution = Diff(old, new).evolution()
+
+        _simulate(sig, [m for ms in evolution.values() for m in ms])
+
+        for app_sig in sig.app_sigs:
+            for model_sig in app_sig.model_sigs:
+                for field_sig in model_sig.field_sigs:
+                    if 'related_model' in field_sig.field_attrs:
+                        # Ill-formed product of KNOWN
+                        # C05-related-model-into-attrs; reported there.
+                        raise _IllFormed('stray related_model attribute')
+
+        return sig
 
     raise ValueError(kind)
 
@@ -1811,8 +1863,27 @@ def _c06_explain(orig, loaded, path):
                 if getattr(ma, attr) != getattr(mb, attr):
                     return None
 
-            if not dict.__eq__(ma._field_sigs, mb._field_sigs):
+            if list(ma._field_sigs) != list(mb._field_sigs):
                 return None
+
+            for field_name, fa in ma._field_sigs.items():
+                fb = mb._field_sigs[field_name]
+
+                if fa == fb:
+                    continue
+
+                tracked = set(_field_defaults(fa)) | {'db_table_comment'}
+                dropped = set(fa.field_attrs) - tracked
+                kept = dict((key, value)
+                            for key, value in fa.field_attrs.items()
+                            if key in tracked)
+
+                if (dropped and fa.field_type is fb.field_type and
+                        fa.related_model == fb.related_model and
+                        dict.__eq__(kept, fb.field_attrs)):
+                    causes.add('C06-untracked-field-attrs-dropped')
+                else:
+                    return None
 
             for attr in ('index_sigs', 'constraint_sigs'):
                 la, lb = getattr(ma, attr), getattr(mb, attr)
@@ -1910,16 +1981,24 @@ def _c06_roundtrip(sig, path):
 
         return loaded, stored, field._dumps(loaded)
 
-    if path == 'v1':
+    if path in ('v1', 'v1legacy'):
         data = sig.serialize(sig_version=1)
         stored = pickle_dumps(data)
+
+        if path == 'v1legacy':
+            # What Django <= 1.6 era signatures look like: SortedDict
+            # containers (forces the DjangoCompatUnpickler fallback).
+            stored = stored.replace(
+                'ccollections\nOrderedDict',
+                'cdjango.utils.datastructures\nSortedDict')
+
         loaded = ProjectSignature.deserialize(pickle_loads(stored))
         return loaded, stored, pickle_dumps(loaded.serialize(sig_version=1))
 
     raise ValueError(path)
 
 
-C06_PATHS = ('mem', 'json', 'db', 'v1')
+C06_PATHS = ('mem', 'json', 'db', 'v1', 'v1legacy')
 
 
 def _c06_eval(inputs, cache=None, paths=C06_PATHS):
@@ -1933,12 +2012,21 @@ def _c06_eval(inputs, cache=None, paths=C06_PATHS):
     except _lib_rejections() as e:
         outcome['skipped'] = 'could not build signature: %s' % _exc(e)
         return outcome
+    except _IllFormed as e:
+        outcome['skipped'] = 'input signature ill-formed: %s' % _exc(e)
+        return outcome
+    except TypeError as e:
+        if inputs['kind'] != 'hinted-evolved':
+            raise
+        # KNOWN C05-retype-relation-same-target-crashes; not a C06 matter.
+        outcome['skipped'] = 'could not build signature: %s' % _exc(e)
+        return outcome
 
     outcome['nontrivial'] = True
     outcome['summary'] = {'stored_text_length': len(_ser(sig))}
 
     for path in paths:
-        if path == 'v1' and not _v1_expressible(sig):
+        if path in ('v1', 'v1legacy') and not _v1_expressible(sig):
             continue
 
         try:
@@ -1952,7 +2040,7 @@ def _c06_eval(inputs, cache=None, paths=C06_PATHS):
                             'signature': _exc(e)[:100]})
             continue
 
-        if path == 'v1':
+        if path in ('v1', 'v1legacy'):
             # Same logical content: compare the models (a v1 signature has
             # no place for app-level upgrade information).
             a_models = [(app.app_id, m.model_name, m)
@@ -1970,7 +2058,8 @@ def _c06_eval(inputs, cache=None, paths=C06_PATHS):
             diff_ok = _diff_empty(sig, loaded) and _diff_empty(loaded, sig)
 
         # Pickle text is not canonical; v1 only promises the same content.
-        text_ok = True if path == 'v1' else (stored == restored)
+        text_ok = (True if path in ('v1', 'v1legacy')
+                   else (stored == restored))
         explained = None
 
         if not (eq and diff_ok):
@@ -1987,7 +2076,8 @@ def _c06_eval(inputs, cache=None, paths=C06_PATHS):
             from django_evolution.diff import Diff
             observed = {'diff(original, loaded)': str(Diff(sig, loaded)),
                         'diff(loaded, original)': str(Diff(loaded, sig))} \
-                if path != 'v1' else {'model diff': 'not empty'}
+                if path not in ('v1', 'v1legacy') else {
+                    'model diff': 'not empty'}
 
         results.append({'clause': '%s:diff-empty' % path, 'ok': diff_ok,
                         'observed': observed, 'known_id': explained,
@@ -2016,6 +2106,8 @@ def _c06_eval(inputs, cache=None, paths=C06_PATHS):
 
             if only_field_attr_order and eq and diff_ok:
                 text_known = 'C06-field-attr-order-not-preserved'
+            elif explained and 'untracked-field-attrs' in explained:
+                text_known = explained
 
             observed = {'stored': stored[:400], 'restored': restored[:400],
                         'equal_up_to_key_order': same_canonical,
@@ -2111,7 +2203,7 @@ def _c06_scenarios(tier, rng):
     for label, spec in _value_space_specs(tier):
         yield 'spec-values', {'kind': 'spec', 'spec': spec}
 
-    for i in range(150 if tier == 'quick' else 3000):
+    for i in range(150 if tier == 'quick' else 12000):
         subject = []
 
         for name in ('f', 'g', 'h'):
@@ -2171,11 +2263,26 @@ def _c06_scenarios(tier, rng):
              'check': _Q('AND', True, [_kv('a__gt', 1)])}]]],
         [['RenameModel', 'A', 'A2', {'db_table': 'tests_a2'}]],
         [['DeleteModel', 'B']],
+        [['AddField', 'M', 'n', {'$cls': 'CharField'},
+          {'max_length': 5, 'null': True, 'help_text': 'h "q"',
+           'choices': [{'$tuple': ['a', 'A']}]}]],
     ]
 
     for mutations in evolved:
         yield 'evolved', {'kind': 'evolved', 'spec': base,
                           'mutations': mutations}
+
+    # Signatures as left behind by hinted evolutions of the C05 pair space.
+    pairs = [inputs for family, inputs in
+             _c05_scenarios('quick', random.Random(rng.random()))
+             if family == 'field-pairs']
+
+    if tier == 'quick':
+        pairs = rng.sample(pairs, 400)
+
+    for inputs in pairs:
+        yield 'hinted-evolved', {'kind': 'hinted-evolved',
+                                 'old': inputs['old'], 'new': inputs['new']}
 
     # Direct construction: application level information.
     plain_model = {'name': 'M', 'fields': [
@@ -2317,7 +2424,12 @@ C06_RULE = (
     "expression_values() as Index/UniqueConstraint expression; include/"
     "opclasses as list and tuple, Deferrable members, unicode/quote "
     "strings) and random.Random(seed) samples of 3-field+full-Meta models; "
-    "(b) by real mutations simulated on a base signature ('evolved'); (c) "
+    "(b) by real mutations simulated on a base signature ('evolved') and "
+    "by the hinted evolution of C05 field pairs simulated on the old "
+    "signature ('hinted-evolved'; quick: 400 sampled pairs, thorough: all "
+    "quick-catalog pairs; evolved signatures carrying the stray "
+    "'related_model' attribute of KNOWN C05-related-model-into-attrs are "
+    "skipped as ill-formed input); (c) "
     "by direct construction: upgrade_method x applied_migrations x "
     "legacy_app_label x with/without models, several apps, the empty "
     "project, field attributes None/False/0/'' stated explicitly, index and "
@@ -2328,8 +2440,11 @@ C06_RULE = (
     "db = Version(signature=...).save() and Version.objects.get() on the "
     "real SQLite database, stored text read with a raw SELECT; v1 = "
     "serialize(sig_version=1) -> pickle_dumps -> pickle_loads -> "
-    "deserialize, only for v1-expressible signatures (no index attrs/"
-    "expressions, no upgrade information).  Clauses per path: eq (loaded == "
+    "deserialize, and v1legacy = the same with the pickle text rewritten "
+    "to django.utils.datastructures.SortedDict containers (what old "
+    "installations stored; exercises DjangoCompatUnpickler), both only for "
+    "v1-expressible signatures (no index attrs/expressions, no upgrade "
+    "information).  Clauses per path: eq (loaded == "
     "original; for v1 every model signature ==), diff-empty (Diff empty in "
     "both directions, ignore_apps=False; for v1 every ModelSignature.diff "
     "empty both ways), text (re-serialized text == stored text; not for "
@@ -2352,9 +2467,10 @@ def suite_C06(tier='quick', seed=0):
 
     collector.extra['families'] = families
     return collector.finish(
-        exhaustive=True,
+        exhaustive=False,
         rule=C06_RULE + '  (Exhaustive over the stated catalogs except the '
-        'sampled spec-combo family.)')
+        'sampled spec-combo family and, in the quick tier, the sampled '
+        'hinted-evolved family.)')
 
 
 def replay_C06(inputs):
@@ -3163,7 +3279,10 @@ def _c13_scenarios(tier, rng):
                                    [('n', ['IntegerField',
                                            {'null': True}])])))}
 
-    for family, inputs in _c05_scenarios(tier, rng):
+    sizes = (C05_SAMPLE_SIZES['quick'] if tier == 'quick' else
+             {'meta-combo': 3000, 'multi-field': 8000})
+
+    for family, inputs in _c05_scenarios(tier, rng, sizes):
         if inputs.get('kind') != 'pair':
             continue
 
